@@ -225,6 +225,13 @@ impl<'p> CoroutinePool<'p> {
             }
             std::thread::sleep(Duration::from_millis(1));
         }
+        if self.get_running_size() > 0 {
+            // the deadline passed with work still in progress: stay in Stopping and say so
+            return Err(Error::new(
+                ErrorKind::TimedOut,
+                "stop timeout, there are still coroutines running !",
+            ));
+        }
         assert_eq!(PoolState::Stopping, self.stopped()?);
         self.do_clean();
         Ok(())
